@@ -110,7 +110,7 @@ def run(ctx):
     for h in lc.all_histories(depth, lc.FS_OPS):
         if q and len(h) == 2 and rng.random() > 0.2:
             continue
-        if not q and len(h) == 3 and rng.random() > 0.12:
+        if not q and len(h) == 3 and rng.random() > 0.05:
             continue
         start = [('write', 'main', 'new'), ('load', False)] if rng.random() < 0.6 else [('load', False)]
         inter = []
